@@ -104,6 +104,9 @@ def main():
         sys.exit(1)
 
     entry, obs = load_obligations(prop)
+    import glob
+    for old in glob.glob(os.path.join(VERIF, "replays", "%s_*.json" % prop)):
+        os.remove(old)      # replay files are rewritten by every run
     if a.only:
         names = set(a.only.split(","))
         obs = [(m, o) for (m, o) in obs if o.name in names]
@@ -132,7 +135,8 @@ def main():
                                      env_extra={"VERIF_REPLAY": "1"})
                     if rr.get("result") is not True and "exception" in rr:
                         os.makedirs(os.path.join(VERIF, "replays"), exist_ok=True)
-                        path = os.path.join(VERIF, "replays", "%s_%s_p%s_example.json" % (prop, o.name, exm["part"]))
+                        path = os.path.join(VERIF, "replays", "%s_%s_p%s_example%d.json" % (
+                            prop, o.name, exm["part"], r.get("examples", []).index(exm)))
                         with open(path, "w") as f:
                             json.dump({"property": prop, "module": m, "obligation": o.name, "part": exm["part"],
                                        "args": exm["args"], "message": "catalogue example fails",
